@@ -394,7 +394,9 @@ class CreateModels18(CommonModels):
         path.assume(z3.Not(b))
         self.glog_add(path, 'awaited', (kind, 'ok'))
         self.glog_add(pr, 'awaited', (kind, 'fail'))
-        exc = ex.new_inst(pr, RuntimeError, args=VTuple([VStr('failure of ' + kind)]))
+        # a failure of some class: a handler narrower than Exception may or may not catch it
+        exc = ex.new_inst(pr, Exception, args=VTuple([VStr('failure of ' + kind)]))
+        pr.heap[('f', exc.oid, '__unknown_class__')] = VBool(True)
         if kind == 'd_getconf':
             res = path.heap[('g', 'getconf_answer')]
         elif kind == 'd_single':
